@@ -272,6 +272,11 @@ func (ev *modelEval) strOf(t *Term) string {
 		if r, ok := ev.addr[v]; ok {
 			return r
 		}
+		for raw, real := range ev.addr {
+			if len(raw) >= 8 && strings.Contains(v, raw) {
+				v = strings.ReplaceAll(v, raw, real)
+			}
+		}
 		return v
 	}
 	return ""
